@@ -118,7 +118,9 @@ def unquote(
 
 UNSAFE_FOR_AUTH_ITEM = b" %@:/?#[]"
 UNSAFE_FOR_PATH = b" %/?#"
-UNSAFE_FOR_QUERY_ITEM = b" %&=#"
+# NOTE: in a query a "+" stands for a space, "%2B" for a plus sign: neither is
+# a spelling of the other
+UNSAFE_FOR_QUERY_ITEM = b" %&=#+"
 UNSAFE_FOR_FRAGMENT = b" %"
 
 # NOTE: those method should only be used on parsed urls to canonicalize/normalize.
@@ -166,21 +168,24 @@ QUOTED_SPLIT_RE = re.compile(r"(%[0-9A-Fa-f]{2})")
 QUOTED_RE = re.compile(r"^%[0-9A-Fa-f]{2}$")
 
 
-def safely_quote_iter(string):
+def safely_quote_iter(string, safe="/"):
     for piece in QUOTED_SPLIT_RE.split(string):
         if QUOTED_RE.match(piece):
             yield piece
         else:
-            yield quote(piece)
+            yield quote(piece, safe=safe)
 
 
-def safely_quote(string):
-    return "".join(safely_quote_iter(string))
+def safely_quote(string, safe="/"):
+    return "".join(safely_quote_iter(string, safe=safe))
 
 
 def safely_quote_qsl(qsl):
     return [
-        (safely_quote(key), safely_quote(value) if value is not None else None)
+        (
+            safely_quote(key, safe="/+"),
+            safely_quote(value, safe="/+") if value is not None else None,
+        )
         for key, value in qsl
     ]
 
